@@ -176,6 +176,23 @@ class HHSys(E1):
                             )
             if self.mode == "c04":
                 probs += self.c04_lookup(sk, true, s)
+            if self.mode == "c18":
+                # a key that fills its cells alone is counted exactly, capped at 2^32-1
+                for x, f in true.items():
+                    if not f:
+                        continue
+                    cx = self.cols(x)
+                    alone = all(
+                        all(self.cols(y)[r] != cx[r] for y, fy in true.items() if y != x and fy)
+                        for r in range(self.depth)
+                    )
+                    if alone:
+                        c = self.lookup(sk, x)
+                        if c is not None and c != min(f, U32):
+                            probs.append(
+                                f"sketch {s}: {x!r} fills its cells alone but hh[key] = {c}, "
+                                f"expected min(true, 2^32-1) = {min(f, U32)}"
+                            )
         return probs
 
     def bounds(self, true):
